@@ -409,7 +409,12 @@ contract(
     requires=["not self.use_x_prime_prior"],
     opaque_callees=["plot_1d_comparison"],
     returns=LP_ARR,
-    ensures=CONV_ENS + ["forall(i, 0, len(x), result[i]['x'] == x[i]['x'])"],
+    # the pool array handed in is written in place (its logP field)
+    modifies=["x"],
+    ensures=CONV_ENS + ["forall(i, 0, len(x), result[i]['x'] == x[i]['x'])",
+                        "len(x) == old(len(x))",
+                        "forall(i, 0, len(x), x[i]['x'] == old(x)[i]['x'] "
+                        "and x[i]['logL'] == old(x)[i]['logL'])"],
 )
 contract(
     PF, "FlowProposal.convert_to_samples", variant_name="x-prime",
@@ -442,7 +447,8 @@ contract(
     # the proposal works in its own parameter order (here b before a)
     params={"x": AB_ARR, "plot": "Bool"},
     returns="Struct(a:Real,b:Real,logP:Real,logL:Real,it:Int)",
+    modifies=["x"],
     ensures=["field_names(result) == ['a', 'b', 'logP', 'logL', 'it']",
-             "forall(i, 0, len(x), result['a'][i] == x['a'][i] and "
-             "result['b'][i] == x['b'][i])"],
+             "forall(i, 0, len(x), result['a'][i] == old(x['a'])[i] and "
+             "result['b'][i] == old(x['b'])[i])"],
 )
